@@ -1,6 +1,7 @@
 (** C15 — options resolve per field: run time over benchmark over innermost group.
     Statements only; each closed by [exact] of a lemma in Proofs/Options.v. *)
-From DivanV Require Import Base.Res Model.Options Proofs.Options Model.RunnerConfig Proofs.RunnerConfig.
+From Coq Require Import Permutation.
+From DivanV Require Import Base.Res Model.Options Proofs.Options Model.RunnerConfig Proofs.RunnerConfig Model.Filter Model.TreeBuild Proofs.TreeBuild.
 Local Open Scope N_scope.
 
 (** For every nesting depth ([groups] = the options of the nodes on the path
@@ -229,3 +230,34 @@ Theorem C15_config_spec : forall (before after : list builder_call) (a : cli),
   runner_config_resolve before a after = config_spec before a after.
 Proof. exact config_spec_correct. Qed.
 Print Assumptions C15_config_spec.
+
+(** * The tree whose groups lend their options ("else the nearest enclosing
+    bench_group that sets it"): [from_benches] in ANY registration order puts
+    every benchmark into the tree exactly once, below exactly the parents its
+    module path names (none carrying a group yet), and never makes two sibling
+    parents with the same raw name — so there is one node per module for a
+    group to sit on, wherever a same-named function's leaf was registered. *)
+Theorem C15_tree_from_benches : forall (paths : list (list str)),
+  Permutation (leaf_chains (from_benches paths)) (expected_from 0 paths)
+  /\ uniq (from_benches paths).
+Proof. exact from_benches_spec. Qed.
+Print Assumptions C15_tree_from_benches.
+
+(** PARTIAL.  Full statement (checked on every run by the boolean
+    specification of the stream [tree-build-options], not yet proved):
+      for all [paths], [groups], options and [runner], and every benchmark [i]
+      with module path [p], [options_on_tree runner gopt bopt (build_tree paths groups)]
+      gives [i] the options [spec_options_of_bench runner groups gopt (bopt i) p]
+      (level [k] of [p] carries the LAST registered group whose module path is the
+      first [k-1] components of [p] and whose raw name is component [k] up to [r#]),
+      provided no two sibling modules differ by an [r#] prefix only.
+    Proved here: inserting the groups changes group slots only — names, leaves
+    and their order stay as [from_benches] built them — and keeps sibling parents
+    distinct.  Missing: that the slot [insert_group] sets is the one the
+    specification names (needs the address of a node to be tied to the module
+    paths of the benchmarks below it). *)
+Theorem C15_tree_groups_shape_partial : forall (paths : list (list str)) (groups : list (list str * str)),
+  map erase_tree (build_tree paths groups) = map erase_tree (from_benches paths)
+  /\ uniq (build_tree paths groups).
+Proof. exact build_tree_shape. Qed.
+Print Assumptions C15_tree_groups_shape_partial.
